@@ -4,6 +4,10 @@ import DimodProofs.Ineq
 import DimodProofs.Encoding
 import DimodProofs.CqmToBqm
 import DimodProofs.CqmIneq
+import DimodProofs.CqmFold
+import DimodProofs.CqmFeasible
+import DimodProofs.DqmAdj
+import DimodProofs.DqmEnergy
 
 /-! # C16 — constraint-to-penalty conversions penalise exactly the violating assignments
 
@@ -60,6 +64,46 @@ theorem py_fallback_unmerged_ok_when_distinct (vt : VT) (x : Label → Rat) (hx 
     (hnd : (terms.map (·.1)).Nodup) :
     evalBag x (eqTermsPyUnmerged vt terms lam C) = lam * ((lsum x terms + C) * (lsum x terms + C)) :=
   eqTermsPyUnmerged_eval vt x hx terms lam C hnd
+
+/-! ## DQM: the variable-level adjacency `adj_` that `energies()` iterates over -/
+
+/-- the coded sorted merge ("finally fix the adjacency"): after `add_linear_equality_constraint`, for every
+    variable `i`, `adj_[i]` holds its old neighbours plus — when `i` is a constraint variable — every other
+    constraint variable, nothing else, and stays strictly increasing (the energy loop stops at the first
+    neighbour above `u`).  `vars = sortedVars ncases merged_terms` is strictly increasing by
+    `dqm_constraint_variables_sorted`. -/
+theorem dqm_adjacency_merge_spec (adj : List (List Nat)) (vars : List Nat) (hv : StrictSorted vars) (i : Nat) (hi : i < adj.length) :
+    (∀ w, w ∈ (adjUpdate adj vars).getD i [] ↔ (w ∈ adj.getD i [] ∨ (i ∈ vars ∧ w ∈ vars ∧ w ≠ i)))
+    ∧ (StrictSorted (adj.getD i []) → StrictSorted ((adjUpdate adj vars).getD i [])) :=
+  adjUpdate_spec adj vars hv i hi
+
+theorem dqm_constraint_variables_sorted (nc : List Nat) (m : List (Nat × Rat)) :
+    StrictSorted (sortedVars nc m) ∧ ∀ w, w ∈ sortedVars nc m ↔ ∃ t ∈ m, varOfCase nc t.1 = w :=
+  sortedVars_spec nc m
+
+/-- `energies()` as coded — it walks the variable-level adjacency `adj_`, adding the case-pair bias of every
+    *adjacent* variable pair — equals the case-level energy at the sample's one-hot indicator on every
+    well-formed DQM (`Dqm.WF`: unique keys, strictly sorted adjacency lists, every stored interaction joins
+    cases of two mutually adjacent variables) -/
+theorem dqm_energies_as_coded (d : Dqm) (hwf : d.WF) (s : List Nat) (hv : ValidSample d.ncases s) :
+    d.energyCoded s = d.bq.energy (indic d.ncases s) := energyCoded_eq d hwf s hv
+
+/-- the constraint keeps a DQM well formed: in particular the merge into `adj_` makes every pair of
+    constraint variables adjacent, so that no new interaction is invisible to `energies()` -/
+theorem dqm_wellformed_preserved (d : Dqm) (hwf : d.WF) (hlen : d.adj.length = d.ncases.length)
+    (terms : List (Nat × Nat × Rat)) (lam C : Rat) (d' : Dqm) (h : dqmAddEq d terms lam C = some d') :
+    d'.WF ∧ d'.adj.length = d'.ncases.length ∧ d'.ncases = d.ncases := dqmAddEq_wf d hwf hlen terms lam C d' h
+
+/-- **DQM, through `energies()`**: on any well-formed DQM (pre-existing biases and adjacency on any superset
+    of variables), `add_linear_equality_constraint` makes the energy that `energies()` reports grow by exactly
+    `λ(Σ aₖ·[case k chosen] + C)²` at every sample (repeated `(variable, case)` entries included) -/
+theorem eq_constraint_adds_square_dqm_energies (d : Dqm) (hwf : d.WF) (hlen : d.adj.length = d.ncases.length) (hvt : d.bq.vt = .binary)
+    (terms : List (Nat × Nat × Rat)) (lam C : Rat) (d' : Dqm) (h : dqmAddEq d terms lam C = some d')
+    (s : List Nat) (hv : ValidSample d.ncases s) :
+    ∃ r, dqmResolve d.ncases terms = some r
+      ∧ d'.energyCoded s = d.energyCoded s
+          + lam * ((lsum (indic d.ncases s) r + C) * (lsum (indic d.ncases s) r + C)) :=
+  dqm_energies_add_square d hwf hlen hvt terms lam C d' h s hv
 
 /-! ## slack encodings -/
 
@@ -153,9 +197,8 @@ theorem qm_to_bqm_substitutes (vars : List (Label × VKind)) (z : Label → Rat)
     per-bit linear terms with `constant = offset`, `lb`/`ub = rhs` — whose penalty is characterised by
     `ineq_penalty_zero_iff` / `ineq_penalty_zero_iff_equality` / `ineq_refuses_only_infeasible`.
     and composed for the CQM in `cqm_inequality_constraint_shape` / `cqm_inequality_constraint_penalty`.
-    PARTIAL only in that the per-constraint statements are not folded into one statement about the whole
-    list of constraints (the slack labels of different constraints must be distinct: the real labels are
-    random uuids). -/
+    The statements over the whole constraint list are `cqm_to_bqm_sound_lower` (no label hypothesis) and
+    `cqm_to_bqm_sound_feasible` (under the distinct-labels hypothesis `Sep`). -/
 theorem cqm_to_bqm_sound_partial (q : CQM) (lam? : Option Rat) (b : Bq Label) (lam : Rat) (h : cqmToBqm q lam? = .ok (b, lam))
     (z : Label → Rat) (hz : Dom .binary z) :
     ∃ bags, consBags q.vars lam 0 q.cons = .ok bags
@@ -183,7 +226,8 @@ theorem cqm_inequality_constraint_shape (vars : List (Label × VKind)) (lam : Ra
     | .equality ubc => consBag vars lam i c = .ok (eqTermsCy .binary (castTerms T) lam (((-ubc : Int)) : Rat))
     | .slack ubc _ S =>
       ∃ touch, consBag vars lam i c = .ok (touch ++ eqTermsCy .binary (castTerms (T ++ slackTerms (slackLabels s!"c{i}" S) S)) lam (((-ubc : Int)) : Rat))
-        ∧ ∀ z, evalBag z touch = 0 :=
+        ∧ (∀ z, evalBag z touch = 0)
+        ∧ (∀ t ∈ touch, ∃ l ∈ slackLabels s!"c{i}" S, t = PTerm.lin l 0) :=
   consBag_ineq vars lam i c hs hq T k r hT hk hr
 
 /-- `cqm_to_bqm_sound`, the `≤` / `≥` constraints (slack case): ≥ 0 everywhere, ≥ λ wherever the decoded CQM
@@ -210,6 +254,31 @@ theorem cqm_constraint_value_is_lhs (vars : List (Label × VKind)) (c : Cons) (h
     (z : Label → Int) (hz : Bin01 z) :
     (((isum z T + k : Int)) : Rat) = qmEnergy (decode vars (toRat z)) c.lhs :=
   cqm_constraint_value vars c hq T k hT hk z hz
+
+/-- **`cqm_to_bqm_sound`, lower bounds over the whole constraint list** (integer-coefficient linear constraints,
+    `λ ≥ 0`): at every 0/1 sample of the BQM, for every value of the slack bits, the energy is at least the
+    objective at the decoded (inverted) CQM sample, and at least `λ` more wherever that sample violates a constraint -/
+theorem cqm_to_bqm_sound_lower (q : CQM) (lam : Rat) (hlam : 0 ≤ lam) (b : Bq Label) (h : cqmToBqm q (some lam) = .ok (b, lam))
+    (hint : ∀ c ∈ q.cons, IntCons q.vars c) (z : Label → Int) (hz : Bin01 z) :
+    qmEnergy (decode q.vars (toRat z)) q.obj ≤ b.energy (toRat z)
+    ∧ ((∃ c ∈ q.cons, ¬ c.holdsAt (decode q.vars (toRat z))) → qmEnergy (decode q.vars (toRat z)) q.obj + lam ≤ b.energy (toRat z)) :=
+  cqmToBqm_lower q lam hlam b h hint z hz
+
+/-- **`cqm_to_bqm_sound`, feasible samples**: under the distinct-labels hypothesis `Sep` (every constraint's slack
+    labels are pairwise distinct, differ from the protected labels `P` ⊇ bits of the objective and of all
+    constraints, and from the slack labels of the other constraints — the real labels carry a fresh uuid per
+    constraint): wherever the decoded CQM sample satisfies all constraints, the slack bits — and only they — can be
+    set so that the BQM's energy equals the objective.  Together with the previous theorem: the energy minimised
+    over the slack bits equals the objective at every feasible CQM assignment and exceeds it by ≥ λ at every
+    infeasible one. -/
+theorem cqm_to_bqm_sound_feasible (q : CQM) (lam : Rat) (hlam : 0 ≤ lam) (b : Bq Label) (h : cqmToBqm q (some lam) = .ok (b, lam))
+    (hint : ∀ c ∈ q.cons, IntCons' q.vars c) (P : List Label)
+    (hP : ∀ c ∈ q.cons, ∀ t ∈ intTerms q.vars c, t.1 ∈ P) (hPobj : ∀ l ∈ bagLabels (qmToBag q.vars q.obj), l ∈ P)
+    (hsep : Sep q.vars P 0 q.cons)
+    (z : Label → Int) (hz : Bin01 z) (hsat : ∀ c ∈ q.cons, c.holdsAt (decode q.vars (toRat z))) :
+    ∃ z', Bin01 z' ∧ (∀ v, v ∉ slackAll q.vars 0 q.cons → z' v = z v)
+      ∧ b.energy (toRat z') = qmEnergy (decode q.vars (toRat z)) q.obj :=
+  cqmToBqm_feasible q lam hlam b h hint P hP hPobj hsep z hz hsat
 
 theorem cqm_refuses_quadratic_constraint (vars : List (Label × VKind)) (lam : Rat) (i : Nat) (c : Cons) (h : c.lhs.quad ≠ []) :
     consBag vars lam i c = .error .quadraticConstraint := consBag_refuses_quadratic vars lam i c h
